@@ -68,6 +68,11 @@ pub fn curated_bodies() -> Vec<String> {
         "<html><body><div/><div>selfclosing</div></body></html>".into(),
         "<html><body><title>a<div>b</title><div>k</div></body></html>".into(),
         "<html><body><div><p class=k>m</p>".into(),
+        // raw-text end tags with white space after the name, legacy script guards writing an inner script
+        "<html><head><title>T</title\n></head><body><div>x</div></body></html>".into(),
+        "<html><body><style>p{}</style\t><textarea>t</textarea ><div>x</div></body></html>".into(),
+        "<html><body><script><!--\ndocument.write('<script src=\"a.js\"><\\/script>');\n//--></script><div>y</div></body></html>".into(),
+        "<html><body><script><!-- x --></script><div>y</div><script>a<b</script></body></html>".into(),
     ]
 }
 
@@ -170,16 +175,26 @@ pub fn token_spans(body: &[u8]) -> Vec<Span> {
 }
 
 /// does this byte range contain something a fresh tokenizer would read as markup ('<' followed by a letter, '/', '!' or '?')
-fn has_taglike(bytes: &[u8]) -> bool {
-    bytes.windows(2).any(|w| w[0] == b'<' && (w[1].is_ascii_alphabetic() || w[1] == b'/' || w[1] == b'!' || w[1] == b'?'))
+///
+/// `names`: the element names the filters look for. Only a start or end tag of one of THOSE elements
+/// inside raw text / a comment / CDATA can make a filter act differently once the lexical context is
+/// lost; other markup-like text (an inner <script src>, <b>, ...) is harmless for these filters.
+fn has_taglike(bytes: &[u8], names: &[String]) -> bool {
+    let lower: Vec<u8> = bytes.iter().map(|b| b.to_ascii_lowercase()).collect();
+    names.iter().any(|n| {
+        let open = format!("<{}", n.to_lowercase());
+        let close = format!("</{}", n.to_lowercase());
+        lower.windows(open.len()).any(|w| w == open.as_bytes()) || lower.windows(close.len()).any(|w| w == close.as_bytes())
+    })
 }
 
 /// Lexical context of a cut at byte offset `p` (0 < p < |body|).
 ///
-/// The open finding "lexical context lost across chunks" is about content that *contains markup-like
-/// text*: raw-text / comment / CDATA content without any is named `...-plain` and is never expected to
-/// change the output, so a regression there is not covered by the known signatures.
-pub fn classify_cut(body: &[u8], spans: &[Span], p: usize) -> String {
+/// The open finding "lexical context lost across chunks" is about content that *contains a tag of an
+/// element the filters look for*: raw-text / comment / CDATA content without one is named `...-plain`
+/// and is never expected to change the output, so a regression there is not covered by the known
+/// signatures.
+pub fn classify_cut(body: &[u8], spans: &[Span], p: usize, names: &[String]) -> String {
     if p < body.len() && (body[p] & 0xC0) == 0x80 {
         return "cut-inside-utf8-sequence".to_string();
     }
@@ -201,7 +216,7 @@ pub fn classify_cut(body: &[u8], spans: &[Span], p: usize) -> String {
                     }
                     if s.end <= p && p < end && end > s.end {
                         let content_end = if i + 1 < spans.len() && spans[i + 1].kind == TokenType::TextToken && spans[i + 1].raw_text_of.is_some() { spans[i + 1].end } else { s.end };
-                        return if has_taglike(&body[s.end..content_end]) { format!("cut-inside-rawtext({tag})") } else { format!("cut-inside-rawtext-plain({tag})") };
+                        return if has_taglike(&body[s.end..content_end], names) { format!("cut-inside-rawtext({tag})") } else { format!("cut-inside-rawtext-plain({tag})") };
                     }
                 }
             }
@@ -212,7 +227,7 @@ pub fn classify_cut(body: &[u8], spans: &[Span], p: usize) -> String {
             return match s.kind {
                 TokenType::TextToken => match &s.raw_text_of {
                     Some(tag) => {
-                        if has_taglike(&body[s.start..s.end]) {
+                        if has_taglike(&body[s.start..s.end], names) {
                             format!("cut-inside-rawtext({tag})")
                         } else {
                             format!("cut-inside-rawtext-plain({tag})")
@@ -220,7 +235,7 @@ pub fn classify_cut(body: &[u8], spans: &[Span], p: usize) -> String {
                     }
                     None => {
                         if body[s.start..s.end].starts_with(b"<![CDATA[") {
-                            if has_taglike(&body[s.start + 2..s.end]) {
+                            if has_taglike(&body[s.start + 2..s.end], names) {
                                 "cut-inside-cdata".to_string()
                             } else {
                                 "cut-inside-cdata-plain".to_string()
@@ -232,7 +247,7 @@ pub fn classify_cut(body: &[u8], spans: &[Span], p: usize) -> String {
                 },
                 TokenType::CommentToken => {
                     let raw = &body[s.start..s.end];
-                    let plain = raw.len() < 2 || !has_taglike(&raw[2..]);
+                    let plain = raw.len() < 2 || !has_taglike(&raw[2..], names);
                     if raw.starts_with(b"<![CDATA[") {
                         if plain { "cut-inside-cdata-plain".to_string() } else { "cut-inside-cdata".to_string() }
                     } else if plain {
@@ -250,7 +265,7 @@ pub fn classify_cut(body: &[u8], spans: &[Span], p: usize) -> String {
             // boundary: directly after the start tag of a raw-text element the following content loses its context
             if s.kind == TokenType::TextToken {
                 if let Some(tag) = &s.raw_text_of {
-                    return if has_taglike(&body[s.start..s.end]) { format!("cut-inside-rawtext({tag})") } else { format!("cut-inside-rawtext-plain({tag})") };
+                    return if has_taglike(&body[s.start..s.end], names) { format!("cut-inside-rawtext({tag})") } else { format!("cut-inside-rawtext-plain({tag})") };
                 }
             }
             let _ = i;
@@ -260,7 +275,7 @@ pub fn classify_cut(body: &[u8], spans: &[Span], p: usize) -> String {
     "cut-between-tokens".to_string()
 }
 
-pub fn classify_schedule(body: &[u8], history: &[usize]) -> String {
+pub fn classify_schedule(body: &[u8], history: &[usize], names: &[String]) -> String {
     let spans = token_spans(body);
     let mut cuts = Vec::new();
     let mut off = 0;
@@ -281,9 +296,9 @@ pub fn classify_schedule(body: &[u8], history: &[usize]) -> String {
                 "no-cut".to_string()
             }
         }
-        1 => classify_cut(body, &spans, cuts[0]),
+        1 => classify_cut(body, &spans, cuts[0], names),
         _ => {
-            let ctx: Vec<String> = cuts.iter().map(|c| classify_cut(body, &spans, *c)).collect();
+            let ctx: Vec<String> = cuts.iter().map(|c| classify_cut(body, &spans, *c, names)).collect();
             // cuts that all fall in contexts where the lexical context is lost across chunks (raw text,
             // comment, CDATA, doctype) are one defect class: name it by the *set* of contexts
             let context_loss = |c: &String| c.starts_with("cut-inside-rawtext(") || c == "cut-inside-comment" || c == "cut-inside-cdata" || c == "cut-inside-doctype";
